@@ -447,7 +447,15 @@ fn worker_script(sched: &Arc<Sched>, sh: &Arc<Shared>, ops: &[Value]) {
                 let wk = sh.wakers.lock().unwrap().remove(&w);
                 if let Some(wk) = wk {
                     sched.hi(format!(r#""e":"wdrop_begin","w":{}"#, w));
-                    drop(wk);
+                    if w % 2 == 0 {
+                        // dropped by unwinding: the thread panics while it owns the Waker
+                        let _ = std::panic::catch_unwind(std::panic::AssertUnwindSafe(move || {
+                            let _owned = wk;
+                            panic!("scripted: unwinding drop");
+                        }));
+                    } else {
+                        drop(wk);
+                    }
                     sched.hi(format!(r#""e":"wdrop_end","w":{}"#, w));
                 } else {
                     sched.hi(format!(r#""e":"nop","why":"no waker {}""#, w));
